@@ -213,7 +213,7 @@ PROPS['C03'] = floor_prop(
     ('d ',), 'implementation traces are produced with the deep-copy probe at every clock advance; non-trivial = a scenario '
              'in which some device waited for downstream space', runner='ProbeRunner',
     # floorl / sys: devices constructed mid-run behind a blocked upstream ("connection added")
-    families=[('floorc', 80, 1500), ('floor', 50, 1000), ('floors', 120, 2500), ('floorq', 40, 800), ('floorl', 40, 800), ('sys', 40, 800)],
+    families=[('floorc', 80, 1500), ('floor', 50, 1000), ('floors', 120, 2500), ('floorq', 40, 800), ('floorl', 40, 800), ('sys', 40, 800), ('floorn', 0, 0)],
     nontrivial=lambda st, s: any(l.startswith('d ') and ' wds=1 ' in l for l in st))
 PROPS['C04'] = floor_prop(
     'C04', ['SimProc.Props.C04', 'SimProc.Props.C04W'], ['SimProc/Props/C04.lean', 'SimProc/Props/C04W.lean'],
@@ -232,7 +232,7 @@ PROPS['C08'] = floor_prop(
     'C08', ['SimProc.Props.C08', 'SimProc.Props.C08W', 'SimProc.Props.C08S'], ['SimProc/Props/C08.lean', 'SimProc/Props/C08W.lean', 'SimProc/Props/C08S.lean'],
     {'p': _c.fields('hist', 'stack', 'kids'), 'd': _c.fields('coll', 'blk'), 'rec': _c.only(('received_part',))},
     ('rec received_part',), 'non-trivial = a part was handed over',
-    families=[('floor', 100, 2000), ('floorc', 50, 1000), ('floors', 100, 2000), ('floorg', 80, 1500), ('floorb', 40, 800), ('floori', 80, 1500)])
+    families=[('floor', 100, 2000), ('floorc', 50, 1000), ('floors', 100, 2000), ('floorg', 80, 1500), ('floorb', 40, 800), ('floori', 80, 1500), ('floorn', 0, 0)])
 PROPS['C11'] = floor_prop(
     'C11', ['SimProc.Props.C11', 'SimProc.Props.C11W'], ['SimProc/Props/C11.lean', 'SimProc/Props/C11W.lean'],
     {'d': _c.fields('part', 'resv', 'wres', 'down'), 'r': None, 'rec': _c.only(('resource_update',))},
